@@ -11,7 +11,8 @@ PROPS = ('C11',)
 
 
 def plan(tier, seed):
-    return [{'type': t, 'vnone': True, 'cost': 300} for t in sorted(ref.DFAS)] + _histcheck.plan(lambda t: (genhist.n_core_additions(t, 2) * 2 + 400) * max(1, len(ref.DFAS[t].alphabet) // 3))
+    return [dict(sh, vnone=True) for sh in _histcheck.plan(
+        lambda t: (genhist.n_core_additions(t, 2) + 200) * max(1, len(ref.DFAS[t].alphabet) // 3))] + _histcheck.plan(lambda t: (genhist.n_core_additions(t, 2) * 2 + 400) * max(1, len(ref.DFAS[t].alphabet) // 3))
 
 
 def run_shard(shard, tier, seed):
